@@ -1362,7 +1362,12 @@ impl<'a> UserModel<'a> {
         }
         let mut diff_list = Vec::new();
         for column in column_start..=column_end {
-            let old_value = self.model.get_column_width(sheet, column)?;
+            // the width the column has when shown: undo on a hidden column must not store its visible width 0
+            let old_value = self
+                .model
+                .workbook
+                .worksheet(sheet)?
+                .get_actual_column_width(column)?;
             diff_list.push(Diff::SetColumnWidth {
                 sheet,
                 column,
@@ -1535,7 +1540,12 @@ impl<'a> UserModel<'a> {
         }
         let mut diff_list = Vec::new();
         for row in row_start..=row_end {
-            let old_value = self.model.get_row_height(sheet, row)?;
+            // the height the row has when shown: undo on a hidden row must not store its visible height 0
+            let old_value = self
+                .model
+                .workbook
+                .worksheet(sheet)?
+                .get_actual_row_height(row)?;
             diff_list.push(Diff::SetRowHeight {
                 sheet,
                 row,
